@@ -35,12 +35,12 @@ type preSnap struct {
 }
 
 type allocOracle struct {
-	prop     string
-	res      *verifrt.Result
-	u        *universe
-	thorough bool
-	menus    string
-	outcomes map[string]bool
+	prop       string
+	res        *verifrt.Result
+	u          *universe
+	thorough   bool
+	menus      string
+	outcomes   map[string]bool
 	confirming bool
 	confirmed  map[string]bool
 }
@@ -792,7 +792,10 @@ func runAlloc(t *testing.T, prop string) {
 		faultMenu, crashMenu = true, true
 		menus = "fault+crash"
 	case "C03":
-		menus = ""
+		// one failing status write (no crash) is part of the environment of C03 in the universes where a service
+		// can be rewritten while keeping its address (PreferDualStack top-up)
+		faultMenu = true
+		menus = "fault"
 	}
 	if d := os.Getenv("VERIF_DEPTH"); d != "" {
 		fmt.Sscan(d, &depth)
@@ -819,76 +822,95 @@ func runAlloc(t *testing.T, prop string) {
 	deadline := time.Now().Add(verifrt.Budget())
 	us := universes(thorough)
 	work := 0
-	for _, u := range us {
-		if only := os.Getenv("VERIF_UNIVERSE"); only != "" && only != u.Name {
-			continue
-		}
-		// work items: one per first user event after the initial pool delivery
-		init := newCtlSys(u)
-		init.Apply(verifrt.Event{Kind: "pool"})
-		for init.svcQ.Has("reload") {
-			init.Apply(verifrt.Event{Kind: "svc", S: "reload"})
-		}
-		prefix := []verifrt.Event{{Kind: "pool"}, {Kind: "svc", S: "reload"}}
-		var roots [][]verifrt.Event
-		for _, e := range init.Enabled() {
-			if e.User {
-				roots = append(roots, append(append([]verifrt.Event{}, prefix...), e))
-			}
-		}
-		if len(u.Preload) > 0 {
-			// a preloaded universe starts as a restart: every first event (any delivery order, any fault) is a root
-			roots = nil
-			for _, e := range newCtlSys(u).Enabled() {
-				if e.Fault && prop != "C06" {
-					continue
-				}
-				roots = append(roots, []verifrt.Event{e})
-			}
-		}
-		o := &allocOracle{prop: prop, res: res, u: u, thorough: thorough, menus: menus}
-		var mine [][]verifrt.Event
-		for _, r := range roots {
-			work++
-			if verifrt.Mine(work) {
-				mine = append(mine, r)
-			}
-		}
-		if len(mine) == 0 {
-			continue
-		}
-		udepth := depth
-		if prop == "C06" && !thorough && (u.Name == "share" || u.Name == "policy" || u.Name == "dual") {
-			udepth = depth - 1 // the fault menu multiplies the graph: the hand-written restart-* universes carry the deep cases in the quick tier
-		}
-		if strings.HasPrefix(u.Name, "restart-") && prop == "C06" {
-			udepth = 1 // the store is pre-built: one more user event, every delivery order, two faults
-			if thorough {
-				udepth = 2
-			}
-		}
-		maxFault := 0
-		if prop == "C06" {
-			maxFault = 1
-			if thorough || strings.HasPrefix(u.Name, "restart-") {
-				maxFault = 2
-			}
-		}
-		b := &verifrt.BFS{New: func() verifrt.System { return newCtlSys(u) }, Roots: mine, MaxUser: udepth, MaxFault: maxFault, Horizon: 90,
-			Before: o.before, After: o.after, Res: res, Deadline: deadline}
-		if prop == "C02" && (u.Name == "policy" || u.Name == "dual") {
-			// the policy must hold whichever pool the maps yield first: one non-default iteration order per history
-			b.ChoiceKinds, b.MaxChoiceDev = []string{"maporder"}, 1
-		}
-		// the root's own first edge is checked by replaying it with the oracle
-		for _, r := range mine {
-			b.Replay(r)
-			res.Sample(o.mkCase(nil, r).Readable)
-		}
-		b.Run()
+	// quick: depth 3 with user events arriving in bursts of two. thorough: that pass, then depth 4 with user events
+	// at quiescent states only (bursts at depth 4 multiply the graph by ten).
+	type passT struct {
+		depth int
+		burst bool
 	}
+	passes := []passT{{depth, true}}
+	if thorough {
+		passes = []passT{{depth - 1, true}, {depth, false}}
+	}
+	for _, pass := range passes {
+		depth := pass.depth
+		burstMode = pass.burst
+		for _, u := range us {
+			if only := os.Getenv("VERIF_UNIVERSE"); only != "" && only != u.Name {
+				continue
+			}
+			// work items: one per first user event after the initial pool delivery
+			init := newCtlSys(u)
+			init.Apply(verifrt.Event{Kind: "pool"})
+			for init.svcQ.Has("reload") {
+				init.Apply(verifrt.Event{Kind: "svc", S: "reload"})
+			}
+			prefix := []verifrt.Event{{Kind: "pool"}, {Kind: "svc", S: "reload"}}
+			var roots [][]verifrt.Event
+			for _, e := range init.Enabled() {
+				if e.User {
+					roots = append(roots, append(append([]verifrt.Event{}, prefix...), e))
+				}
+			}
+			if len(u.Preload) > 0 {
+				// a preloaded universe starts as a restart: every first event (any delivery order, any fault) is a root
+				roots = nil
+				for _, e := range newCtlSys(u).Enabled() {
+					if e.Fault && prop != "C06" {
+						continue
+					}
+					roots = append(roots, []verifrt.Event{e})
+				}
+			}
+			o := &allocOracle{prop: prop, res: res, u: u, thorough: thorough, menus: menus}
+			var mine [][]verifrt.Event
+			for _, r := range roots {
+				work++
+				if verifrt.Mine(work) {
+					mine = append(mine, r)
+				}
+			}
+			if len(mine) == 0 {
+				continue
+			}
+			udepth := depth
+			if prop == "C06" && !thorough && (u.Name == "share" || u.Name == "policy" || u.Name == "dual") {
+				udepth = depth - 1 // the fault menu multiplies the graph: the hand-written restart-* universes carry the deep cases in the quick tier
+			}
+			if strings.HasPrefix(u.Name, "restart-") && prop == "C06" {
+				udepth = 1 // the store is pre-built: one more user event, every delivery order, two faults
+				if thorough {
+					udepth = 2
+				}
+			}
+			maxFault := 0
+			if prop == "C03" && thorough && u.Name == "dual" {
+				maxFault = 1 // depth 4 + one failing write reaches "top-up write fails while another service allocates"
+			}
+			if prop == "C06" {
+				maxFault = 1
+				if thorough || strings.HasPrefix(u.Name, "restart-") {
+					maxFault = 2
+				}
+			}
+			b := &verifrt.BFS{New: func() verifrt.System { return newCtlSys(u) }, Roots: mine, MaxUser: udepth, MaxFault: maxFault, Horizon: 90,
+				Before: o.before, After: o.after, Res: res, Deadline: deadline}
+			if prop == "C02" && (u.Name == "policy" || u.Name == "dual") {
+				// the policy must hold whichever pool the maps yield first: one non-default iteration order per history
+				b.ChoiceKinds, b.MaxChoiceDev = []string{"maporder"}, 1
+			}
+			// the root's own first edge is checked by replaying it with the oracle
+			for _, r := range mine {
+				b.Replay(r)
+				res.Sample(o.mkCase(nil, r).Readable)
+			}
+			b.Run()
+		}
+	}
+	burstMode = true
 	res.Count("traces_validated_against_impl", res.Counters["transitions"])
 	res.Info["depth_user_events"] = depth
+	res.Info["passes"] = fmt.Sprintf("%+v (depth in user events, bursts of two user events allowed)", passes)
 	res.Info["menus"] = menus
 	res.Info["max_fault_events"] = "1 (2 in the restart-* universes and in the thorough tier)"
 	res.Count("distinct_nontrivial", res.Counters["states"])
